@@ -141,6 +141,11 @@ func c19Exec(op string) string {
 	mxj.XMLEscapeChars(true)
 	file := filepath.Join(scratch(), "f."+kind)
 	defer os.Remove(file)
+	if len(op)%2 == 0 {
+		// the file exists already and is longer than what will be written ("if it exists it will
+		// be truncated")
+		os.WriteFile(file, []byte(strings.Repeat("<old>previous content</old>{\"old\":1}\n", 400)), 0o644)
+	}
 	notes := []string{}
 	var err error
 	// what each Map's own encoding decodes to
